@@ -201,3 +201,121 @@ func canonBag(rows []any) string {
 	sort.Strings(cs)
 	return strings.Join(cs, "|")
 }
+
+// Statement texts outside the query AST of the specification (FROM dual, derived tables on both sides of a join with
+// ASYNC items, subqueries over dual, tuples ...). What C12 states needs no model of their values: the result is plain
+// data by reflection and JSON round trip, and evaluating the text again on an equal input gives an equal result
+// (the sequence; the multiset for joins and groups).
+var texts12 = []struct {
+	sql string
+	bag bool
+}{
+	{"SELECT a, (SELECT * FROM dual) AS x FROM t", false},
+	{"SELECT a, (SELECT * FROM (SELECT * FROM dual) d) AS x FROM t", false},
+	{"SELECT a, (SELECT *, 1 AS one FROM dual) AS x FROM t WHERE a > 1", false},
+	{"SELECT * FROM dual", false},
+	{"WITH c AS (SELECT a FROM t) SELECT * FROM dual", false},
+	{"WITH c AS (SELECT a FROM t) SELECT *, (SELECT COUNT(*) AS k FROM c) AS n FROM dual", false},
+	{"WITH c AS (SELECT a FROM t) SELECT (SELECT COUNT(*) AS k FROM c) AS n, * FROM dual", false},
+	{"WITH c AS (SELECT a FROM t) SELECT * FROM (SELECT * FROM dual) x", false},
+	{"WITH c AS (SELECT a FROM t), d AS (SELECT * FROM c) SELECT a, (SELECT * FROM dual) AS x FROM d", false},
+	{"SELECT (a, s) AS tup, (1, 2) FROM t", false},
+	{"SELECT *, 1 AS one FROM dual", false},
+	{"SELECT * FROM (SELECT a, ASYNC.CONCAT(s, '!') AS v FROM t) l JOIN (SELECT * FROM u) r ON l.a = r.c", true},
+	{"SELECT l FROM (SELECT a, ASYNC.CONCAT(s, '!') AS v FROM t) l JOIN (SELECT c, ASYNC.CONCAT(c, '!') AS w FROM u) r ON l.a = r.c", true},
+	{"SELECT * FROM (SELECT a, ASYNC.CONCAT(s, '!') AS v FROM t) l LEFT JOIN (SELECT c, (SELECT p FROM `<-.t[0].n`) AS ps FROM u) r ON l.a = r.c", true},
+	{"SELECT * FROM (SELECT a, ASYNC.CONCAT(s, '!') AS v, SPINASYNC.CONCAT(s, '?') AS w FROM t) l JOIN (SELECT *, ASYNC.CONCAT(c, '!') AS v FROM u) r ON l.a >= r.c", true},
+	{"SELECT * FROM (SELECT * FROM t) l JOIN (SELECT c, ASYNC.CONCAT(c, '!') AS w FROM u) r ON l.a = r.c", true},
+	{"SELECT r FROM (SELECT * FROM u) l RIGHT JOIN (SELECT a, ASYNC.CONCAT(s, '!') AS v FROM t) r ON l.c = r.a", true},
+	{"SELECT x.a, x.v FROM (SELECT a, ASYNC.CONCAT(s, '!') AS v FROM t) x", false},
+	{"SELECT * FROM (SELECT a, ASYNC.CONCAT(s, '!') AS v FROM t) x", false},
+	{"WITH c AS (SELECT a, ASYNC.CONCAT(s, '!') AS v FROM t) SELECT * FROM c l JOIN c r ON l.a = r.a", true},
+	{"SELECT a, ASYNC.CONCAT(s, '!') AS v FROM t UNION SELECT c, ASYNC.CONCAT(c, '!') FROM u", false},
+	{"SELECT FUSE(o) FROM t", false},
+	{"SELECT FUSE(o), a FROM t", false},
+	{"SELECT a, o AS p, o AS q, n AS m FROM t", false},
+	{"SELECT a, FIRST(n) AS f, LAST(n) AS l, ELEMENTAT(n, 0) AS e FROM t", false},
+	{"SELECT ARRAY(a, s, o, n) AS arr FROM t", false},
+	{"SELECT a, UNWIND(n) AS p FROM t", false},
+	{"SELECT g, COUNT(*) AS k, * FROM t GROUP BY g", true},
+}
+
+func doc12() map[string]any {
+	n := func(ps ...float64) []any {
+		out := []any{}
+		for _, p := range ps {
+			out = append(out, map[string]any{"p": p})
+		}
+		return out
+	}
+	return map[string]any{
+		"t": []any{
+			map[string]any{"a": 1.0, "g": 0.0, "s": "x", "o": map[string]any{"k": 1.0, "l": "y"}, "n": n(1, 2)},
+			map[string]any{"a": 3.0, "g": 1.0, "s": "y", "o": map[string]any{"k": 2.0}, "n": n()},
+			map[string]any{"a": 3.0, "g": 0.0, "s": "x", "o": map[string]any{"k": 2.0}, "n": n(3)},
+		},
+		"u": []any{map[string]any{"c": 3.0}, map[string]any{"c": 1.0}},
+	}
+}
+
+func init() {
+	Drivers["C12:texts"] = func(emit func(Verdict)) {
+		for _, tc := range texts12 {
+			for _, variant := range []string{"plain", "json"} {
+				sig := []string{"text", "variant:" + variant}
+				v := Verdict{OK: true, SQL: tc.sql, Sig: sig, Nontrivial: true}
+				mk := func() map[string]any {
+					if variant == "json" {
+						return jsonDecoded(doc12())
+					}
+					return doc12()
+				}
+				first := Run(mk(), tc.sql, false)
+				v.Execs++
+				check := func() {
+					if first.Panic != nil {
+						v = fail("panic", tc.sql, sig, "panic escaped the API: %v", first.Panic)
+						return
+					}
+					if first.Err != nil {
+						v.Nontrivial = false
+						v.Drift = fmt.Sprintf("statement text not accepted: %v", first.Err)
+						return
+					}
+					if s := NotPlain(any(first.Rows)); s != "" {
+						v = fail("notplain", tc.sql, sig, "%s in %s", s, Canon(any(first.Rows)))
+						return
+					}
+					b, err := json.Marshal(first.Rows)
+					if err != nil {
+						v = fail("notplain", tc.sql, sig, "the result cannot be marshalled to JSON: %v", err)
+						return
+					}
+					var back any
+					if err := json.Unmarshal(b, &back); err != nil || (first.Rows != nil && emptyAsNull(Canon(any(first.Rows))) != emptyAsNull(Canon(back))) {
+						v = fail("notplain", tc.sql, sig, "JSON round trip changes the result: %s -> %s", Canon(any(first.Rows)), Canon(back))
+						return
+					}
+					for rep := 0; rep < 6; rep++ {
+						ReExec = rep == 0 // once, also a second Exec of the same Query
+						again := Run(mk(), tc.sql, false)
+						ReExec = false
+						if again.Again && (again.Err2 != nil || again.Panic2 != nil || !(Canon(any(again.Rows2)) == Canon(any(again.Rows)) || (tc.bag && canonBag(again.Rows2) == canonBag(again.Rows)))) {
+							v = fail("nondet", tc.sql, append(sig, "reexec"), "the same Query executed twice: first %s, then %s (err %v, panic %v)", Canon(any(again.Rows)), Canon(any(again.Rows2)), again.Err2, again.Panic2)
+							return
+						}
+						v.Execs++
+						same := again.Err == nil && again.Panic == nil && (Canon(any(again.Rows)) == Canon(any(first.Rows)) || (tc.bag && canonBag(again.Rows) == canonBag(first.Rows)))
+						if !same {
+							v = fail("nondet", tc.sql, sig, "repetition on an equal input: first %s, then %s", Canon(any(first.Rows)), again.Describe())
+							return
+						}
+					}
+				}
+				check()
+				v.Key, v.Case = tc.sql+"/"+variant, Node{"sql": tc.sql, "variant": variant}
+				emit(v)
+			}
+		}
+	}
+}
